@@ -3011,6 +3011,33 @@ def check_C15(res):
 
 
 # ====================================================================== C19
+def true_channels(d):
+    """the actual number of channels: those somebody is on (read off the USERS' own records) and the configured ones -
+    not the size of the server's channel table, which is what the figure is computed from (seeded C19-e: a table entry
+    nobody is on any more)"""
+    on = set(c for u in d["users"].values() for c in u["channels"])
+    return len(on | set(c for c, ch in d["channels"].items() if ch["preconfigured"]))
+
+
+def c19_channel_traces(res):
+    """channels coming and going by every exit (C16's life-cycle histories), an observer asking LUSERS around each exit"""
+    out = []
+    for k, t in enumerate(c16_traces(res)):
+        if "exits" not in t.meta:
+            continue
+        if res.tier == "quick" and not t.meta["founder_leaves_first"] and not pick(res, k, 3):
+            continue
+        t2 = Trace("c19-" + t.id, t.cfg)
+        for e in t.events:
+            t2.events.append(e)
+            if e[0] == "L" and e[1] == 2 and e[2] == "LIST":
+                t2.line(2, "LUSERS")
+        t2.line(2, "LUSERS")
+        t2.meta = dict(t.meta)
+        out.append(t2)
+    return out
+
+
 def stats_oracle(t, steps):
     fails = []
     cm = ConnMap(t.cfg.name)
@@ -3028,7 +3055,7 @@ def stats_oracle(t, steps):
                     inv = sum(1 for u in users.values() if "i" in u["modes"])
                     ops = sum(1 for u in users.values() if "o" in u["modes"] or "O" in u["modes"])
                     exp = {"251": ":There are %d users and %d invisible on 1 servers" % (len(users) - inv, inv),
-                           "252": "%d :operator(s) online" % ops, "254": "%d :channels formed" % len(prev["channels"]),
+                           "252": "%d :operator(s) online" % ops, "254": "%d :channels formed" % true_channels(prev),
                            "255": ":I have %d clients and 1 servers" % len(users)}
                     for code, text in exp.items():
                         ls = [l for l in mine if numeric_of(l) == code]
@@ -3107,7 +3134,7 @@ def c19_slot_traces(res):
 
 
 def check_C19(res):
-    slots = c19_slot_traces(res)
+    slots = c19_slot_traces(res) + c19_channel_traces(res)
     n = 120 if res.tier == "quick" else 2500
     prof = {"weights": dict(LUSERS=10, ISON=8, USERHOST=8, UMODE=14, OPER=8, NICK=5, JOIN=8, PART=4, KICK=2, QUIT=3, AWAY=4, KILL=1.5, REG=2),
             "p_close": 0.1, "max_conns": 6, "initial_conns": 3, "p_default_mode": 0.2, "p_operators": 1.0}
@@ -3118,7 +3145,7 @@ def check_C19(res):
         "evaluations": r["steps"], "distinct_nontrivial": r["summary"]["reply_codes"].get("251", 0) + r["summary"]["reply_codes"].get("303", 0) + r["summary"]["reply_codes"].get("302", 0),
         "rule": "%d seeded random histories of %d events weighted to registrations, +i/-i, +o/-o, +O/-O, repeated OPER, nick changes, channel creation/destruction, every kind of session ending, with LUSERS / "
                 "ISON / USERHOST queries interleaved; plus slot histories for max_connections in {1,2,3}: random opening (nothing sent / NICK only / full registration / wrong password / invalid bytes), "
-                "refusing and closing; oracle on the implementation: every LUSERS figure equals the count over the user table of the same state, the maximum equals the high-water mark of the history, "
+                "refusing and closing; plus the channel life-cycle histories (ordinary / configured channel x exit of the first x exit of the last member over PART, self-KICK, QUIT, close, KILL, KICK by the other) with LUSERS around every exit; oracle on the implementation: every LUSERS figure equals the count over the user table of the same state, the maximum equals the high-water mark of the history, "
                 "ISON/USERHOST list exactly the registered queried nicks with * for operators and - for away, the invisible/operator counters equal the flag counts after every step, conns_count equals the "
                 "number of open connections and never exceeds max_connections; distinct_nontrivial = LUSERS/ISON/USERHOST answers checked" % (n, 70 if res.tier == "quick" else 200),
         "traces_validated_against_impl": r["traces"],
@@ -4201,6 +4228,50 @@ def check_C20(res):
                     if wrong:
                         rr.violation("hashes printed by -g do not accept exactly their own password: (generated from, tried, accepted) = %r" % wrong[:4],
                                       {"kind": "binary", "passwords": odd, "wrong": wrong}, found=True)
+            # ping_timeout and pong_timeout are two settings: PINGs every ping_timeout, a silent client dropped pong_timeout after the
+            # PING it failed to answer, an answering client kept (seeded C20-e: one setting read for both)
+            for ping, pong in ((1, 2), (2, 1)):
+                port = free_port()
+                path = os.path.join(irc.BUILD, "scratch", "c20-ka-%d.toml" % port)
+                open(path, "w").write(c20_toml(dict(base, max_joins=None, port=port)).replace("ping_timeout = 120", "ping_timeout = %d" % ping).replace("pong_timeout = 20", "pong_timeout = %d" % pong))
+                proc = subprocess.Popen([SERVER_BIN, "-c", path], stdout=subprocess.DEVNULL, stderr=subprocess.DEVNULL)
+                t0 = _time.time()
+                up = False
+                while _time.time() - t0 < 10:
+                    try:
+                        socket.create_connection(("127.0.0.1", port), timeout=0.2).close()
+                        up = True
+                        break
+                    except OSError:
+                        _time.sleep(0.03)
+                recs = []
+                if up:
+                    t_end = int((2 * ping + pong + 1.2) * 1000)
+                    ths = [threading.Thread(target=ka_client, args=(port, "ka" + pat, pat, ping, pong, t_end, recs)) for pat in ("never", "always")]
+                    for th in ths:
+                        th.start()
+                    for th in ths:
+                        th.join()
+                proc.kill()
+                proc.wait()
+                try:
+                    os.remove(path)
+                except OSError:
+                    pass
+                started.append({"case": "ping_timeout=%d pong_timeout=%d" % (ping, pong), "listening": up, "clients": len(recs)})
+                for r in recs:
+                    if r.get("failed") or r["reg"] is None:
+                        continue
+                    pings = [t for t, k in r["events"] if k == "P" and t >= r["reg"]]
+                    if pings and abs(pings[0] - r["reg"] - ping * 1000) > 700:
+                        rr.violation("with ping_timeout = %d the first PING comes %d ms after registration" % (ping, pings[0] - r["reg"]), {"kind": "binary", "scenario": r}, found=True)
+                    if r["pattern"] == "never":
+                        want = (pings[0] if pings else r["reg"] + ping * 1000) + pong * 1000
+                        if r["eof"] is None or not (want - 250 <= r["eof"] <= want + 900):
+                            rr.violation("with ping_timeout = %d and pong_timeout = %d a silent client is %s; the settings give a drop %d ms after the unanswered PING (t=%d ms)" % (
+                                ping, pong, "still connected at the end" if r["eof"] is None else "dropped at t=%d ms" % r["eof"], pong * 1000, want), {"kind": "binary", "scenario": r}, found=True)
+                    elif r["eof"] is not None:
+                        rr.violation("with ping_timeout = %d and pong_timeout = %d a client that answers every PING is disconnected at t=%d ms" % (ping, pong, r["eof"]), {"kind": "binary", "scenario": r}, found=True)
             # TLS changes the transport only
             tls_d = dict(base, max_joins=None, tls=dict(cert_file="/repo/test_data/cert.crt", cert_key_file="/repo/test_data/cert_key.crt"))
             views = {}
@@ -4261,7 +4332,7 @@ def check_C20(res):
         "rule": "%d configuration files x command lines (each validated field valid / invalid / absent: server name, password hashes incl. non-canonical base64, operator / user / channel names, 200- "
                 "and 201-byte nicks, TLS pair in file and on the command line, --name / --network overrides) through the real MainConfig::new vs the rules of the statement (python) and vs Config.config_accept; "
                 "hash validator on mutated hashes; argon2 generate / verify on %d passwords (own password accepted, neighbours rejected); the real binary: %d start-up cases (exit status, listening or not, "
-                "welcome burst contents, max_joins, default modes, -n override), -g round trip through a configured server, one 2-client scene of 23 commands over plain TCP and over TLS compared line by line; "
+                "welcome burst contents, max_joins, default modes, -n override; ping_timeout / pong_timeout as two settings with a silent and an answering client), -g round trip through a configured server, one 2-client scene of 23 commands over plain TCP and over TLS compared line by line; "
                 "%d random-configuration histories against the model with a welcome-burst oracle; %d max_connections histories (opens beyond the limit, closes, failed registrations) with the slot-count oracle" % (len(cases), len(pws), len(started), ntr, len(slot_traces)),
         "traces_validated_against_impl": r["traces"], "validation_outcomes": dict(reasons),
         "samples": [{"config": cases[0][0], "cli": cases[0][1], "impl": fi[0][:160]}, started[:3]],
@@ -4746,6 +4817,7 @@ def check_C18(res):
             h.start()
         try:
             everyone = []
+            abort_rounds = False
             for rd in range(rounds):
                 # A. simultaneous claims to one nickname
                 nick = "racer%d" % rd
@@ -4962,6 +5034,44 @@ def check_C18(res):
                             break
                     for c in vics + clms:
                         c.close()
+                # J. read-only queries that list invisible users (WHO *) while other connections change state (AWAY on / off, and the
+                #    bystanders' JOIN / PART): every query and every change is answered (seeded C18-e: a second acquisition of the
+                #    state lock inside a query deadlocks with a queued writer - every connection stops being answered)
+                if rd == 3:
+                    invs, readers, writers = cs[12:20], cs[20:23], cs[4:12]
+                    for c in invs:
+                        c.send("MODE %s +i\r\n" % names[c])
+                    pump_all(invs, quiet=0.2, tmo=3.0)
+                    t_j = _time.time()
+                    it = 0
+                    while _time.time() - t_j < (2.5 if res.tier == "quick" else 8.0) and not abort_rounds:
+                        it += 1
+                        marks = {c: len(c.lines) for c in readers + writers}
+                        for c in writers:
+                            c.send("AWAY :busy\r\nAWAY\r\n" * 10)
+                        for c in readers:
+                            c.send("WHO *\r\n")
+                        for c in readers:
+                            if not c.wait_for(lambda l: " 315 " in l, tmo=6, start=marks[c]):
+                                bad("WHO * (listing invisible users) is not answered while other connections change their AWAY state", {"round": rd, "iteration": it, "nick": names[c]})
+                                abort_rounds = True
+                                break
+                            stats["who_under_writes"] += 1
+                        for c in writers:
+                            if abort_rounds:
+                                break
+                            t1 = _time.time()
+                            while sum(1 for l in c.lines[marks[c]:] if " 305 " in l) < 10 and _time.time() - t1 < 6 and not c.eof:
+                                c.pump(0.05)
+                            if sum(1 for l in c.lines[marks[c]:] if " 305 " in l) < 10:
+                                bad("AWAY commands are not answered while other connections ask WHO *", {"round": rd, "iteration": it, "nick": names[c]})
+                                abort_rounds = True
+                            stats["away_under_reads"] += 10
+                        for c in readers + writers:
+                            c.lines = c.lines[-200:]
+                    if abort_rounds:
+                        everyone = cs
+                        break
                 # E. every live connection is still served
                 for c in cs:
                     c.send("PING alive%d\r\n" % rd)
@@ -5029,7 +5139,7 @@ def check_C18(res):
         "evaluations": sum(stats.values()) + r["steps"], "distinct_nontrivial": rounds * 5 + r["traces"],
         "rule": "burst scenarios against the real multi-threaded binary, with 4 bystanders keeping the state lock contended: per round %d connections claim one nickname at the same moment (exactly one 001, "
                 "the rest 433), all JOIN one new channel at once (all members, exactly one founder), all JOIN a +l 3 channel at once (3 admitted, the rest 471), 8 of them pipeline 12 numbered PRIVMSG/PING pairs "
-                "(PONG tokens in order on each socket; per sender->receiver pair the sequence 0..11 in order), every connection answers PING afterwards, NAMES and WHO agree, (second round) 6 numbered channel messages sent while four connections keep OPER (password check under the write lock) busy and a member quits - each remaining member gets each exactly once; and (first round) a client that pipelines 12000 LIST/NAMES/WHO queries over 80 channels without ever reading its socket must not keep others from being answered or registering; %d rounds; plus the scan of "
+                "(PONG tokens in order on each socket; per sender->receiver pair the sequence 0..11 in order), every connection answers PING afterwards, NAMES and WHO agree, (second round) 6 numbered channel messages sent while four connections keep OPER (password check under the write lock) busy and a member quits - each remaining member gets each exactly once; (fourth round) three connections ask WHO * listing eight invisible users while eight others switch AWAY on and off - every query and every change answered; and (first round) a client that pipelines 12000 LIST/NAMES/WHO queries over 80 channels without ever reading its socket must not keep others from being answered or registering; %d rounds; plus the scan of "
                 "lock acquisitions per handler against inventory/lock_shape.json; plus %d sequential histories against the model" % (N, rounds, r["traces"]),
         "traces_validated_against_impl": r["traces"], "burst": dict(stats), "lock_shape_functions": len(shape), "lock_shape_diff": sdiff, "burst_objections_rerun": burst_rerun,
         "samples": [{"round": 0, "claims": N, "channel": "#race0", "limit_channel": "#lim0"}],
